@@ -29,11 +29,17 @@ def gen_cases(rng, tier):
     for g in range(n):
         mode = rng.randrange(29)
         hq = rng.random() < 0.4
-        kind = rng.choice([0, 0, 1])
+        kind = rng.choice([0, 0, 1, 2, 3])      # 2: blit_v (one pixel with a coverage), 3: blit_anti_h2 (a pair): the small-mask pipeline
         w = rng.choice([1, 4, 8, 16, 17, 24, 33])
+        if kind == 3 and w < 2:
+            w = 4
         color = rand_color(rng)
         extra = [rng.choice([1, 128, 254, rng.randint(1, 254)])] if kind == 1 else []
         x0 = rng.randint(0, w - 1); ln = rng.randint(1, w - x0)
+        if kind == 2:
+            ln, extra = 1, [rng.choice([1, 64, 128, 200, 254, 255])]
+        elif kind == 3:
+            x0 = rng.randint(0, w - 2); ln, extra = 2, [rng.choice([1, 128, 254, 255]), rng.choice([1, 100, 254, 255])]
         base = [rand_premul(rng) for _ in range(w)]
         aa = rng.random() < 0.5
         mixed = [p + (rng.choice([0, 0, 255, 255, rng.randint(1, 254)]),) for p in base]
@@ -64,6 +70,25 @@ def gen_cases(rng, tier):
     # Mask::fill_path onto existing data (fill_px kind 3 of the C03 module)
     c03cases = _c03.gen_cases(rng, tier)
     cases += [c for c in c03cases if c[0] == "fill_px" and c[1][2] == 3][:30 if tier == "quick" else 400]
+    # Mask::fill_path of shapes that come from outside and reach less than a pixel into the first / last column or row
+    from .geomgen import poly_ops as _po, IDENT as _ID
+    for i in range(48 if tier == "quick" else 480):
+        w, h = rng.choice([(20, 14), (33, 9)])
+        reach = rng.choice([0.2, 0.4, 0.45, 0.5, 0.55, 0.9, 0.95])
+        side = i % 4
+        a, b = sorted([rng.uniform(1, (h if side < 2 else w) - 1) for _ in range(2)])
+        if b - a < 2:
+            b = a + 2
+        if side == 0:
+            pts = [(-5.0, a), (reach, a), (reach, b), (-5.0, b)]
+        elif side == 1:
+            pts = [(w - reach, a), (w + 5.0, a), (w + 5.0, b), (w - reach, b)]
+        elif side == 2:
+            pts = [(a, -5.0), (b, -5.0), (b, reach), (a, reach)]
+        else:
+            pts = [(a, h - reach), (b, h - reach), (b, h + 5.0), (a, h + 5.0)]
+        aa = (i // 4) % 2
+        cases.append(("fill_px", [i % 2, aa, 1, w, h, 0, w, 125 if not aa else 750, 350] + list(_ID) + _po(pts, grid=64.0)))
     # Mask::fill_path on masks wider / taller than one tile (fill_px kind 1 of the C03 module: the coverage a tiled mask ends up with)
     cases += [c for c in c03cases if c[0] == "fill_px" and c[1][2] == 1 and max(c[1][3], c[1][4]) > 8191][:24 if tier == "quick" else 200]
     return cases
